@@ -33,6 +33,7 @@ type Drv struct {
 	WriterFailAt    int
 	WriterShort     bool
 	WriterOnce      bool
+	ExtraOpts       string // comma-separated extra options applied in this order: json yaml dry exts fmt noiter nil
 	ErrFlavour      string // "" | canceled-wrapped | deadline-wrapped: what the injected reader/writer error wraps
 	CbFailAt        int
 	Canceller       bool
@@ -69,6 +70,9 @@ func (d *Drv) String() string {
 	}
 	if d.ErrFlavour != "" {
 		s += " errorFlavour=" + d.ErrFlavour
+	}
+	if d.ExtraOpts != "" {
+		s += " options=" + d.ExtraOpts
 	}
 	if d.Canceller {
 		s += " canceller"
@@ -186,6 +190,24 @@ func (r *DrvRun) Body() {
 	}
 	if d.Strict {
 		opts = append(opts, gtree.WithStrictVerify())
+	}
+	for _, o := range strings.Split(d.ExtraOpts, ",") {
+		switch o {
+		case "json":
+			opts = append(opts, gtree.WithEncodeJSON())
+		case "yaml":
+			opts = append(opts, gtree.WithEncodeYAML())
+		case "dry":
+			opts = append(opts, gtree.WithDryRun())
+		case "exts":
+			opts = append(opts, gtree.WithFileExtensions([]string{"b", "d"}))
+		case "fmt":
+			opts = append(opts, gtree.WithBranchFormatIntermedialNode("+-", ":  "), gtree.WithBranchFormatLastNode("`----", ""))
+		case "noiter":
+			opts = append(opts, gtree.WithNoUseIterOfSimpleOutput())
+		case "nil":
+			opts = append(opts, nil)
+		}
 	}
 	calls := 0
 	cb := func(wn *gtree.WalkerNode) error {
